@@ -7,6 +7,8 @@ import (
 	"bufio"
 	"bytes"
 	"fmt"
+	"math"
+	"math/bits"
 	"math/rand"
 	"os"
 	"sort"
@@ -437,6 +439,18 @@ func (h *history) stopPasses() (string, string) {
 	return strconv.Itoa(stop), strconv.Itoa(passes)
 }
 
+// kArg: a count for TopK/BottomK: around the size, 0, and "everything" written as a huge unsigned number
+func (h *history) kArg() string {
+	if h.r.Intn(8) == 0 {
+		huge := []uint64{math.MaxInt64, math.MaxInt64 + 1, math.MaxUint64, math.MaxUint32, math.MaxInt32 + 1}
+		if bits.UintSize == 32 {
+			huge = []uint64{math.MaxInt32, math.MaxInt32 + 1, math.MaxUint32}
+		}
+		return strconv.FormatUint(pick(h.r, huge), 10)
+	}
+	return strconv.Itoa(h.r.Intn(len(h.order) + 3))
+}
+
 // rangeOK filters out the bound pairs the library gives no meaning to.
 func (h *history) rangeOK(a, b string) bool {
 	if ty := h.cfg.numTy; ty == "f32" || ty == "f64" {
@@ -530,10 +544,10 @@ func (h *history) query() {
 		h.s.exec("seq", h.id, "back", st, ps)
 	case roll < 92:
 		st, ps := h.stopPasses()
-		h.s.exec("seq", h.id, "topk", strconv.Itoa(r.Intn(len(h.order)+3)), st, ps)
+		h.s.exec("seq", h.id, "topk", h.kArg(), st, ps)
 	default:
 		st, ps := h.stopPasses()
-		h.s.exec("seq", h.id, "botk", strconv.Itoa(r.Intn(len(h.order)+3)), st, ps)
+		h.s.exec("seq", h.id, "botk", h.kArg(), st, ps)
 	}
 }
 
@@ -994,6 +1008,31 @@ func runTreeMode(cfg treeRunCfg, tr *transcript) {
 	tr.stats["histories-with-grow-and-shrink"] = nontrivial
 }
 
+var rogueTrees []drvTree
+
+// rogueStep performs out-of-contract operations on private trees whose own results are not judged.
+func rogueStep(r *rand.Rand) {
+	if len(rogueTrees) < 3 {
+		rogueTrees = append(rogueTrees, newTree("alpha bytes"), newTree("alpha string"), newTree("comp u8,s"))
+	}
+	safely(func() string {
+		t := rogueTrees[r.Intn(2)]
+		base := randBytes(r, []byte("ab"), 1, 3)
+		// keys that are prefixes of one another once terminated: k, k·00·x, k·00·y …
+		for i := 0; i < 4; i++ {
+			k := append(append(append([]byte{}, base...), 0), randBytes(r, []byte("xy\x00"), 0, 3)...)
+			t.Insert(hexLit(k), i)
+		}
+		t.Insert(hexLit(base), 9)
+		t.Insert(hexLit(append(append([]byte{}, base...), 0)), 9)
+		t.Get(hexLit(base))
+		if r.Intn(2) == 0 {
+			t.Delete(hexLit(base))
+		}
+		return ""
+	})
+}
+
 // runMultiMode interleaves operations over several live trees of mixed kinds (C12).
 func runMultiMode(cfg treeRunCfg, tr *transcript) {
 	r := rand.New(rand.NewSource(cfg.seed))
@@ -1038,6 +1077,37 @@ func runMultiMode(cfg treeRunCfg, tr *transcript) {
 			s.exec("dump", h.id)
 			if r.Intn(3) == 0 {
 				h.query()
+			}
+			if r.Intn(6) == 0 && len(hs) > 1 {
+				// two passes alive at once: a complete pass over one tree from inside the loop body of a pass
+				// over another (each must yield what it yields alone)
+				o, in := pick(r, hs), pick(r, hs)
+				if !s.dead[o.id] && !s.dead[in.id] {
+					osel := pick(r, [][]string{{"all"}, {"back"}, {"botk", "5"}, {"topk", "4"}})
+					isel := pick(r, [][]string{{"all"}, {"back"}, {"botk", "3"}})
+					var inner [][]kv
+					outer := []kv{}
+					out := safely(func() string {
+						outer = s.trees[o.id].SeqHook(osel, func(i int) {
+							if i < 3 {
+								res, _ := s.trees[in.id].Seq(isel, 0, 1)
+								inner = append(inner, res[0])
+							}
+						})
+						return renderKVs(outer)
+					})
+					tr.emit(fmt.Sprintf("seq %d %s 0 1", o.id, strings.Join(osel, " ")), out)
+					for _, res := range inner {
+						tr.emit(fmt.Sprintf("seq %d %s 0 1", in.id, strings.Join(isel, " ")), renderKVs(res))
+					}
+					tr.stats["multi-nested-passes"]++
+				}
+			}
+			if r.Intn(4) == 0 {
+				// a tree misused with keys outside its contract (byte strings with embedded 0x00, one a prefix of
+				// others) lives next to the others; whatever happens to IT, the others must not notice
+				rogueStep(r)
+				tr.stats["multi-rogue-steps"]++
 			}
 			if r.Intn(25) == 0 {
 				// empty one tree completely, then keep using it
